@@ -3,7 +3,9 @@
 (* MULTISET of up to 3 / 4 signature entries from {valid_i, forged_i,       *)
 (* stranger, garbage_1} (and, for the order-sensitive code as written,      *)
 (* every LIST of up to 3), nonces repeated, registrations and deletions;    *)
-(* burns around the minimum.  Burns and mints do not interact, so they are  *)
+(* burns around the minimum, with the owner moving min_burn and min_mint    *)
+(* apart (MinVals; NoMins switches the config changes off).                 *)
+(* Burns and mints do not interact, so they are  *)
 (* explored by separate configs (NoSeqs / NoVals switch the other half      *)
 (* off).  The properties are checked as action properties on every          *)
 (* transition; states are identified by StateView.  Authorizers are deleted *)
@@ -26,15 +28,21 @@ NoVals == {}
 Order3 == <<"a1", "a2", "a3">>
 E2 == {"e1", "e2"}
 Vals4 == {0, 1, 2, 3}
+Mins3 == {1, 2, 3}
+NoMins == {}
 
 Pos(a) == CHOOSE i \in 1..Len(AuthOrder) : AuthOrder[i] = a
 \* the trailing conjunct makes TLC report coverage under these names
 A_BurnOk == (\E c \in Client, e \in Eth \cup {NoEth}, v \in BurnVals : Burn(c, e, v) /\ last'.ok) /\ TRUE
-A_BurnFail == (\E c \in Client, e \in Eth \cup {NoEth}, v \in BurnVals : Burn(c, e, v) /\ ~last'.ok) /\ TRUE
+\* a burn the two minimums disagree about (min_mint <= v < min_burn, to an address): refused like any other below min_burn
+Between(e, v) == e # NoEth /\ minMint <= v /\ v < minBurn
+A_BurnFail == (\E c \in Client, e \in Eth \cup {NoEth}, v \in BurnVals : ~Between(e, v) /\ Burn(c, e, v) /\ ~last'.ok) /\ TRUE
+A_BurnBetween == (\E c \in Client, e \in Eth, v \in BurnVals : Between(e, v) /\ Burn(c, e, v) /\ ~last'.ok) /\ TRUE
 A_MintOk == (\E p \in MintPayloads : Accepts("c1", p) /\ Mint("c1", p)) /\ TRUE
 A_MintFail == (\E p \in MintPayloads : ~Accepts("c1", p) /\ Mint("c1", p)) /\ TRUE
 A_Register == (\E a \in Auths : Pos(a) = Cardinality(auth) + 1 /\ Register(a)) /\ TRUE
 A_Delete == (\E a \in Auths : Pos(a) = Cardinality(auth) /\ Delete(a)) /\ TRUE
-MCNext == A_BurnOk \/ A_BurnFail \/ A_MintOk \/ A_MintFail \/ A_Register \/ A_Delete
+A_SetMin == (\E w \in {"min_burn", "min_mint"}, v \in MinVals : SetMin(w, v)) /\ TRUE
+MCNext == A_BurnOk \/ A_BurnFail \/ A_MintOk \/ A_MintFail \/ A_Register \/ A_Delete \/ A_SetMin \/ A_BurnBetween
 MCSpec == Init /\ [][MCNext]_vars
 =============================================================================
